@@ -42,9 +42,31 @@ class Device:
         self.budget = 4000
         self.objects: set = set()      # endpoint objects (sockets, ports, RPC clients) created and not yet closed
         self.fail: dict = {}           # establishment op -> way it fails (every occurrence, so retries fail as well)
+        self.os_calls: list = []       # names of the OS / library calls seen since the list was last cleared
+        self.fail_at = None            # (index into os_calls, way): that call fails; way = oserror | gaierror | timeout
+        self.bound: set = set()        # local ports currently bound
+        self.created: list = []        # every socket object created since the list was last cleared
 
     def failing(self, what: str) -> Optional[str]:
+        """Called once by every OS-level call of the fakes: records it, tells whether (and how) it has to fail."""
+        i = len(self.os_calls)
+        self.os_calls.append(what)
+        if self.fail_at is not None and self.fail_at[0] == i:
+            return self.fail_at[1]
         return self.fail.get(what)
+
+    @staticmethod
+    def exc_for(way: str, default: Optional[BaseException] = None) -> BaseException:
+        import socket as _s
+        if way == "timeout":
+            return _s.timeout("timed out")
+        if way == "gaierror":
+            return _s.gaierror(-2, "Name or service not known")
+        if way == "refused":
+            return ConnectionRefusedError(111, "Connection refused")
+        if way == "unreachable":
+            return OSError(113, "No route to host")
+        return default if default is not None else OSError(5, "Input/output error")
 
     def _who(self) -> str:
         from qmi.core.transport import QMI_Transport
@@ -96,24 +118,44 @@ def make_socket_shim(dev: Device):
     import socket as real
 
     class FakeSocket:
+        _fd = [100]
+
         def __init__(self, family=None, type_=None, *a):
             dev.op("socket()")
-            if dev.failing("socket()"):
-                raise OSError(24, "Too many open files")
+            way = dev.failing("socket()")
+            if way:
+                raise dev.exc_for(way, OSError(24, "Too many open files"))
             self._timeout: Optional[float] = None
             self._closed = False
+            self._port = None
+            FakeSocket._fd[0] += 1
+            self._fileno = FakeSocket._fd[0]
             dev.objects.add(self)
+            dev.created.append(self)
+
+        def fileno(self):
+            return -1 if self._closed else self._fileno
 
         def settimeout(self, t):
+            way = dev.failing("settimeout")
+            if way:
+                raise dev.exc_for(way)
             self._timeout = t
 
         def setsockopt(self, *a):
-            pass
+            way = dev.failing("setsockopt")
+            if way:
+                raise dev.exc_for(way)
 
         def bind(self, addr):
             dev.op("bind")
-            if dev.failing("bind"):
+            way = dev.failing("bind")
+            if way:
+                raise dev.exc_for(way, OSError(98, "Address already in use"))
+            if addr[1] in dev.bound:
                 raise OSError(98, "Address already in use")
+            dev.bound.add(addr[1])
+            self._port = addr[1]
             dev.connected(id(self))
 
         def connect(self, addr):
@@ -124,16 +166,15 @@ def make_socket_shim(dev: Device):
                 # gets established later on a descriptor nobody looks at any more
                 dev.connected(id(self))
                 raise real.timeout("timed out")
-            if way == "refused":
-                raise ConnectionRefusedError(111, "Connection refused")
-            if way == "unreachable":
-                raise OSError(113, "No route to host")
+            if way:
+                raise dev.exc_for(way)
             dev.connected(id(self))
 
         def close(self):
             dev.op("close")
             dev.links.discard(id(self))
             dev.objects.discard(self)
+            dev.bound.discard(self._port)
             self._closed = True
 
         def _need(self):
@@ -164,6 +205,25 @@ def make_socket_shim(dev: Device):
         def recvfrom(self, n):
             return self.recv(n), ("127.0.0.1", 1234)
 
+    def _resolver(name, result):
+        def f(*a, **k):
+            dev.op(name)
+            way = dev.failing(name)
+            if way:
+                raise dev.exc_for(way, real.gaierror(-2, "Name or service not known"))
+            return result(*a, **k)
+        return f
+
+    def _create_connection(address, timeout=None, *a, **k):
+        sock = FakeSocket(real.AF_INET, real.SOCK_STREAM)
+        try:
+            sock.settimeout(timeout)
+            sock.connect(address)
+        except BaseException:
+            sock.close()
+            raise
+        return sock
+
     class Shim:
         socket = FakeSocket
         timeout = real.timeout
@@ -173,6 +233,12 @@ def make_socket_shim(dev: Device):
         IPPROTO_TCP, TCP_NODELAY = real.IPPROTO_TCP, real.TCP_NODELAY
         inet_pton = staticmethod(real.inet_pton)
         gaierror = real.gaierror
+
+        gethostbyname = staticmethod(_resolver("gethostbyname", lambda host: "127.0.0.1"))
+        gethostbyname_ex = staticmethod(_resolver("gethostbyname_ex", lambda host: (host, [], ["127.0.0.1"])))
+        getaddrinfo = staticmethod(_resolver("getaddrinfo", lambda host, port, *a, **k: [
+            (real.AF_INET, real.SOCK_STREAM, 6, "", ("127.0.0.1", int(port or 0)))]))
+        create_connection = staticmethod(_create_connection)
 
         def __getattr__(self, k):
             return getattr(real, k)
@@ -189,8 +255,10 @@ def make_serial_shim(dev: Device):
     class FakeSerial:
         def __init__(self, port=None, **kw):
             dev.op("Serial()")
-            if dev.failing("Serial()"):
-                raise real.SerialException(f"could not open port {port}")
+            way = dev.failing("Serial()")
+            if way:
+                raise dev.exc_for(way, real.SerialException(f"could not open port {port}")) if way == "timeout" \
+                    else real.SerialException(f"could not open port {port}")
             dev.objects.add(self)
             dev.connected(id(self))
             self.timeout = kw.get("timeout")
@@ -256,22 +324,18 @@ def make_vxi11_coreclient(dev: Device):
         def __init__(self, host, port=0):
             dev.op("rpc-connect")
             way = dev.failing("rpc-connect")
-            if way == "refused":
-                raise ConnectionRefusedError(111, "Connection refused")
-            if way == "timeout":
-                import socket as _s
-                raise _s.timeout("timed out")
+            if way:
+                raise dev.exc_for("refused" if way == "oserror" else way)
             self.sock = _Sock()
             dev.objects.add(self)
 
         def create_link(self, client_id, lock_device, lock_timeout, name):
             dev.op("create_link")
             way = dev.failing("create_link")
-            if way == "error":
+            if way in ("error", "oserror"):
                 return 9, 0, 0, 0              # "out of resources": the device has no free link
-            if way == "timeout":
-                import socket as _s
-                raise _s.timeout("timed out")
+            if way:
+                raise dev.exc_for(way)
             FakeCoreClient._next[0] += 1
             dev.connected(("vxi", FakeCoreClient._next[0]))
             return 0, FakeCoreClient._next[0], 0, 1024
@@ -508,84 +572,146 @@ def closed_histories(cls, variant: str, kind: str, builder: "D.Builder", methods
 # faults during link establishment, judged at the endpoint level
 # ---------------------------------------------------------------------------
 
-ESTABLISH = {
-    "tcp": [("socket()", "oserror"), ("connect", "timeout"), ("connect", "refused"), ("connect", "unreachable")],
-    "udp": [("socket()", "oserror"), ("bind", "oserror")],
-    "serial": [("Serial()", "oserror")],
-    "vxi11": [("rpc-connect", "refused"), ("rpc-connect", "timeout"), ("create_link", "error"), ("create_link", "timeout")],
-    "usbtmc": [("usb-open", "oserror")],
-}
+def _ways(name: str) -> list:
+    return ["oserror", "timeout"] + (["gaierror"] if name.startswith("get") else [])
 
 
 def establish_faults(cls, variant: str, kind: str, builder, stats) -> list:
-    """Every endpoint operation of link establishment fails in each way (refused / unreachable / timeout with a late
-    connection / no resources …) while the driver's open() runs on the real transport.  Oracle on the endpoint level:
-    after the failed open() nothing the transport created is left un-closed, no link exists, is_open() is False and
-    every transport flag is False; afterwards a fault-free open()/close() works and leaves nothing behind either.
+    """Faults at EVERY OS / library call made while the link is established, discovered from the live code: a fault-free
+    open() on the real transport records the call sequence seen by the wrapped `socket` / `serial` / vxi11 / usbtmc
+    endpoints (socket(), settimeout, setsockopt, gethostbyname/getaddrinfo, bind, connect/create_connection, Serial(),
+    rpc-connect, create_link, usb-open …); then open() is re-run once per recorded call index and way (OSError, timeout,
+    and gaierror for the resolver calls) with exactly that call failing.  After each failed open():
+
+      * every socket object created during that open() is closed (fileno() == -1), no port/RPC client/link is held;
+      * every transport flag is False and is_open() is False;
+      * close() behaves as on a never-opened object (same refusal, no OS call);
+      * a second open() on the same object succeeds, and so does a fresh object on the same local port.
+
     cls = None: the bare transport object (create_transport).  Returns [(op, way, transport-method, clause, detail)]."""
     from qmi.core.transport import QMI_Transport
+
+    def make(dev):
+        if cls is None:
+            from qmi.core.transport import create_transport
+            t = create_transport(KINDS[kind])
+            return None, [t], t.open, t.close, (lambda: False)
+        inst = _build_real(cls, dict(D.variants_of(cls)).get(variant), KINDS[kind], builder)
+        ts = [v for v in vars(inst).values() if isinstance(v, QMI_Transport)]
+        return inst, ts, inst.open, inst.close, (lambda: bool(inst.is_open()))
+
+    def attempt(f):
+        try:
+            f()
+            return None
+        except (D.Budget, D.Watchdog):
+            raise
+        except BaseException as e:
+            return e
+
     out = []
-    for op, way in ESTABLISH[kind]:
-        dev = Device(D.script_for(cls) if cls is not None else None)
-        with Patched(dev), D.VirtualTime(), D._Alarm(60):
-            try:
-                if cls is None:
-                    from qmi.core.transport import create_transport
-                    inst = None
-                    transports = [create_transport(KINDS[kind])]
-                    do_open, do_close = transports[0].open, transports[0].close
-                    is_open = lambda: False                          # noqa: E731
-                else:
-                    inst = _build_real(cls, dict(D.variants_of(cls)).get(variant), KINDS[kind], builder)
-                    transports = [v for v in vars(inst).values() if isinstance(v, QMI_Transport)]
-                    do_open, do_close, is_open = inst.open, inst.close, (lambda: bool(inst.is_open()))
-            except Exception:
-                stats(f"establish_{kind}_not_constructible")
+    script = D.script_for(cls) if cls is not None else None
+    # 1. record the call sequence of a fault-free open(), and how close() refuses on a never-opened object
+    dev = Device(script)
+    with Patched(dev), D.VirtualTime(), D._Alarm(120):
+        try:
+            inst, transports, do_open, do_close, is_open = make(dev)
+        except Exception:
+            stats(f"establish_{kind}_not_constructible")
+            return out
+        if not transports:
+            return out
+        try:
+            never = attempt(do_close)
+            never_type = type(never).__name__ if never is not None else "no exception"
+            dev.os_calls = []
+            e0 = attempt(do_open)
+            seq = list(dev.os_calls)
+            if e0 is not None or not all(t._is_open for t in transports):
+                stats(f"establish_{kind}_fault_free_open_fails")
                 return out
-            if not transports:
-                return out
-            dev.fail = {op: way}
-            try:
+            attempt(do_close)
+        except (D.Budget, D.Watchdog):
+            stats(f"establish_{kind}_aborted_by_guard")
+            return out
+    stats(f"establish_{kind}_os_calls_per_open", len(seq))
+    # 2. one run per recorded call and way
+    for idx, name in enumerate(seq):
+        for way in _ways(name):
+            dev = Device(script)
+            with Patched(dev), D.VirtualTime(), D._Alarm(120):
                 try:
-                    do_open()
-                    raised = None
-                except (D.Budget, D.Watchdog):
-                    raise
-                except BaseException as e:
-                    raised = e
-                stats("establish_fault_runs")
-                stats(f"establish_{kind}_{op}_{way}_" + ("raised" if raised is not None else "open_succeeded"))
-                who = type(transports[0]).__name__ + "._open_transport"
-                flags = [bool(t._is_open) for t in transports]
-                clause = None
-                if raised is not None:
-                    if is_open() or any(flags):
-                        clause = "marked open after a failed link establishment"
-                    elif dev.objects or dev.links:
-                        clause = "endpoint left un-closed"
-                else:
-                    if dev.fail and not (all(flags) and (cls is None or is_open())):
-                        clause = "open() returned although the link was not established"
-                if clause is None and raised is not None:
-                    # the instrument must be usable again once the device is reachable
-                    dev.fail = {}
-                    try:
-                        do_open()
-                        do_close()
-                        if dev.objects or dev.links:
-                            clause = "endpoint left un-closed after a later successful open()/close()"
-                    except (D.Budget, D.Watchdog):
-                        raise
-                    except BaseException as e2:
-                        if cls is None:
-                            clause = f"retry after the failed open() fails ({type(e2).__name__})"
+                    inst, transports, do_open, do_close, is_open = make(dev)
+                    dev.os_calls, dev.created = [], []
+                    dev.fail_at = (idx, way)
+                    raised = attempt(do_open)
+                    dev.fail_at = None
+                    stats("establish_fault_runs")
+                    stats(f"establish_{kind}_{name}_{way}_" + ("raised" if raised is not None else "open_succeeded"))
+                    who = type(transports[0]).__name__ + "._open_transport"
+                    flags = [bool(t._is_open) for t in transports]
+                    filenos = [sk.fileno() for sk in dev.created]
+                    clause = None
+                    if raised is None:
+                        # the failing call was tolerated: then the instrument must simply be open, and closable
+                        if not (all(flags) and (cls is None or is_open())):
+                            clause = "open() returned although the link was not established"
                         else:
-                            stats("establish_retry_failed(handshake)")
-                if clause:
-                    out.append((op, way, who, clause,
-                                f"open() {'raised ' + type(raised).__name__ if raised is not None else 'returned'}; un-closed endpoint "
-                                f"objects: {len(dev.objects)}, established links: {len(dev.links)}, transport flags {flags}, "
-                                f"is_open()={is_open()}"))
-            except (D.Budget, D.Watchdog):
-                stats(f"establish_{kind}_aborted_by_guard")
+                            attempt(do_close)
+                            if dev.objects or dev.links or dev.bound:
+                                clause = "endpoint left un-closed after open()/close()"
+                    elif cls is not None and is_open() and all(flags):
+                        # the call failed after the link was up and the flag set (I/O of a post-flag sequence): the
+                        # instrument is fully open, which the property allows — close() must then work
+                        c = attempt(do_close)
+                        if c is not None or dev.objects or dev.links or dev.bound:
+                            clause = "fully open after the failed open(), but close() does not release everything"
+                        raised = None if clause is None else raised
+                        if clause is None:
+                            continue
+                    else:
+                        if is_open() or any(flags):
+                            clause = "inconsistent open flags after a failed link establishment"
+                        elif dev.objects or dev.links or dev.bound or any(fn != -1 for fn in filenos):
+                            clause = "endpoint left un-closed"
+                        else:
+                            n0 = len(dev.os_calls)
+                            c = attempt(do_close)
+                            ct = type(c).__name__ if c is not None else "no exception"
+                            if ct != never_type or len(dev.os_calls) != n0:
+                                clause = f"close() after the failed open() ({ct}) differs from a never-opened object ({never_type})"
+                    if clause is None and raised is not None:
+                        e2 = attempt(do_open)
+                        if e2 is not None:
+                            clause = f"second open() on the same object fails ({type(e2).__name__}: {str(e2)[:60]})"
+                        else:
+                            attempt(do_close)
+                            if dev.objects or dev.links or dev.bound:
+                                clause = "endpoint left un-closed after a later successful open()/close()"
+                    if clause is None or clause.startswith("endpoint left un-closed"):
+                        # a fresh object on the same local port / device
+                        try:
+                            _i2, ts2, open2, close2, _io2 = make(dev)
+                            e3 = attempt(open2)
+                            if e3 is not None and clause is None:
+                                clause = f"a fresh object for the same local port cannot open ({type(e3).__name__}: {str(e3)[:60]})"
+                            elif e3 is not None:
+                                clause += f"; a fresh object then fails with {type(e3).__name__}: {str(e3)[:50]}"
+                            else:
+                                attempt(close2)
+                        except (D.Budget, D.Watchdog):
+                            raise
+                        except Exception:
+                            pass
+                    if clause:
+                        out.append((name, way, who, clause,
+                                    f"OS call #{idx + 1} of open() ({name}) fails; open() {'raised ' + type(raised).__name__ if raised is not None else 'returned'}; sockets created "
+                                    f"during that open(): fileno() = {filenos}; un-closed endpoint objects: {len(dev.objects)}, "
+                                    f"established links: {len(dev.links)}, bound ports: {sorted(dev.bound)}, transport flags {flags}, "
+                                    f"is_open()={is_open()}"))
+                except (D.Budget, D.Watchdog):
+                    stats(f"establish_{kind}_aborted_by_guard")
+                except Exception as e:
+                    stats("establish_harness_errors")
+                    stats(f"establish_harness_error_{type(e).__name__}")
     return out
